@@ -127,6 +127,31 @@ func corpus() []core.Case {
 		}
 		cs = append(cs, mixCase("corpus-grammar", ops...))
 	}
+	// long numerals: 63..300 leading zeros / underscore padding in front of boundary values
+	// (more characters than any uint64 needs; the value is unchanged)
+	{
+		var ops []string
+		for _, z := range []int{62, 63, 64, 65, 66, 100, 127, 128, 129, 255, 256, 257, 300} {
+			zeros := strings.Repeat("0", z)
+			for _, base := range []int{2, 8, 10, 16, 36} {
+				for _, bits := range []int{8, 64, 0} {
+					vs := boundaryValues(base, bits)
+					for _, v := range vs[:4] {
+						txt := v.Text(base)
+						ops = append(ops, puLine(zeros+txt, base, bits))
+						if pf := basePrefix(base); pf != "" || base == 10 {
+							ops = append(ops, puLine(pf+zeros+txt, 0, bits))
+							ops = append(ops, puLine(pf+strings.Repeat("0_", z/2)+txt, 0, bits))
+							ops = append(ops, puLine(pf+"_"+zeros+"_"+txt, 0, bits))
+						}
+					}
+				}
+			}
+			ops = append(ops, puLine(zeros, 10, 64), puLine(zeros, 0, 64), puLine("0x"+zeros, 0, 64), puLine(zeros+"_", 0, 64),
+				puLine(strings.Repeat("1", z), 2, 64), puLine(strings.Repeat("z", z), 36, 64))
+		}
+		cs = append(cs, mixCase("corpus-long", ops...))
+	}
 	// every byte as a single digit in bases 2, 10, 11, 16, 35, 36 (digit classes, lower(), d >= base)
 	{
 		var ops []string
@@ -232,6 +257,14 @@ func corpus() []core.Case {
 				ops = append(ops, b64eLine(n, in), b64dLine(n, []byte(b64Encs[n].EncodeToString(in))))
 			}
 		}
+		for i := range digestAlgos {
+			if digestAlgos[i].stream == nil {
+				continue
+			}
+			for _, n := range []int{4095, 4096, 4097, 8192, 32767, 32768, 32769} {
+				ops = append(ops, dgzLine(&digestAlgos[i], n, n+i))
+			}
+		}
 		for _, s := range []string{"=", "A", "AA", "AAA", "AAAA", "AA==", "AA=", "AAA=", "A===", "AA==A", "AA\n==", "A A A A", "AAAA\r\n", "-_-_", "+/+/", "AAAAA", "AB==", "AAB="} {
 			for _, n := range b64Names {
 				ops = append(ops, b64dLine(n, []byte(s)))
@@ -245,6 +278,14 @@ func corpus() []core.Case {
 func dgLine(a *digestAlgo, in []byte) string {
 	return fmt.Sprintf("dg %s %s %s", a.name, hx(in), hx(a.sum(in)))
 }
+
+func dgzLine(a *digestAlgo, n, seed int) string {
+	return fmt.Sprintf("dgz %s %d %d %s", a.name, n, seed, hx(a.sum(bigInput(n, seed))))
+}
+
+// streamSizes: around the buffer sizes a hand-written read loop is likely to use
+// (512, 1024, 4096, 8192, 32768 = io.Copy's, 65536) and the hash block sizes.
+var streamSizes = []int{0, 1, 63, 64, 65, 127, 128, 129, 511, 512, 513, 1023, 1024, 1025, 4095, 4096, 4097, 8191, 8192, 8193, 12288, 32767, 32768, 32769, 65535, 65536, 65537}
 
 func hmLine(name string, key, data []byte) string {
 	h := hmac.New(hmacAlgos[name], key)
@@ -360,6 +401,14 @@ func genNumeral(r *core.Rand) (string, int, int) {
 	}
 	if r.Chance(15) {
 		digits = strings.Repeat("0", r.Range(1, 70)) + digits
+	} else if r.Chance(6) {
+		// magnitude stream: 65..300 characters of padding that do not change the value
+		z := r.Range(65, 300)
+		if base == 0 && r.Bool() {
+			digits = strings.Repeat("0_", z/2) + digits
+		} else {
+			digits = strings.Repeat("0", z) + digits
+		}
 	}
 	digits = randCase(r, digits)
 	if r.Chance(50) {
@@ -511,6 +560,17 @@ func genOp(r *core.Rand) string {
 	case 6:
 		return fmt.Sprintf("iprt %d", ipVal(r))
 	case 7:
+		if r.Chance(25) {
+			// large stream: sizes around the plausible buffer sizes, ±2
+			n := streamSizes[r.Intn(len(streamSizes))] + r.Range(-2, 2)
+			if n < 0 {
+				n = 0
+			}
+			if n > 8200 && !r.Chance(30) {
+				n = 4096 + r.Range(-2, 2)
+			}
+			return dgzLine(&digestAlgos[r.Intn(6)], n, r.Intn(1000))
+		}
 		return dgLine(&digestAlgos[r.Intn(len(digestAlgos))], genBytes(r))
 	case 8:
 		return hmLine(hmacNames[r.Intn(len(hmacNames))], genBytes(r), genBytes(r))
